@@ -429,6 +429,12 @@ static const char *vin = "abX"; static int vpos, vreq;
         defs="#define MYMORE yymore()", body="a { MYMORE; }\nab return 2;\nb return (int)yyleng;\n", sect3=MAIN_NR)
     add("reject", [(["--reject"], []), ([], ["reject"])], lambda P: gen_ok(P) or tokens_main(P, b"ab", "2 end"),
         defs="#define MYREJ yyreject()", body="ab { MYREJ; }\nab return 2;\n", sect3=MAIN_NR)
+    # unsetting them says the feature "actually is not used": the scanner must still be a working one, whatever rules it has (variable
+    # trailing context runs on the REJECT machinery internally) - found by a round-5 sub-agent on the unchanged tree
+    VT = "a+/b+ return 1;\nb+ return 2;\nc/d return 4;\nd$ return 5;\n\\n return 3;\n"
+    add("noreject", [(["--noreject"], []), ([], ["noreject"]), ([], ["noreject noyymore"]), ([], ["noreject yylineno"])],
+        lambda P: gen_ok(P) or tokens_main(P, b"aabb\ncd\n", "1 2 3 4 5 3 end"), body=VT, sect3=MAIN_NR)
+    add("noyymore", [(["--noyymore"], []), ([], ["noyymore"])], lambda P: gen_ok(P) or tokens_main(P, b"aabb\ncd\n", "1 2 3 4 5 3 end"), body=VT, sect3=MAIN_NR)
     add("yyreject()-detected", [([], [])], lambda P: gen_ok(P) or tokens_main(P, b"ab", "2 end"), body="ab { yyreject(); }\nab return 2;\n", sect3=MAIN_NR)
     add("REJECT-detected", [([], [])], lambda P: gen_ok(P) or tokens_main(P, b"ab", "2 end"), body="ab { REJECT; }\nab return 2;\n", sect3=MAIN_NR)
 
